@@ -662,6 +662,10 @@ func runDrv7(c *Ctx) {
 		return
 	}
 	isCols := func(v ssa.Value) bool {
+		// the producer may take the list from Rows.columns, which holds exactly it (checked just below)
+		if u, ok := stripConv(v).(*ssa.UnOp); ok && u.Op == token.MUL && rowsField(u.X) == "columns" {
+			return true
+		}
 		v = throughParam(p, v)
 		call, idx := extractOf(v)
 		return call == exCall && idx == 0
